@@ -184,6 +184,43 @@ def irun (P : Archive.Params) (cfg : Lsm.Cfg) : IState â†’ List IOp â†’ IState Ã
     let rest := irun P cfg r.1 ops
     (rest.1, r.2 :: rest.2)
 
+/-! ### tabulated steps (what the driver runs)
+
+`Lsm.State` is a pair of FUNCTIONS bucket â†¦ content; every `setMem` / `saveAll` / `reload` wraps
+the previous function in a new closure, so after a history of n operations an access re-runs a
+chain of n closures, and a `reload` (whose new `mem` calls `disk`, whose `saveAll` closures call
+the older `mem` and `disk` again) doubles that work with every reopen.  For histories of a few
+thousand operations (a bucket's update section filled through the container) the driver therefore
+stores the tables after each step.  `tabMem` / `tabDisk` are the identity
+(`Props.C04.tabulated_steps_are_the_model`), so the driver still runs exactly `step` / `istep`. -/
+
+/-- the bucket table of the manager evaluated on the 16 bucket numbers and stored -/
+def tabMem (s : Lsm.State) : Lsm.State :=
+  let m := ((List.range Spec.IndexMap.nBuckets).map s.mem).toArray
+  { s with mem := fun b => if h : b < m.size then m[b] else s.mem b }
+
+/-- the same for the directory (evaluates `save_index` of what was last saved) -/
+def tabDisk (s : Lsm.State) : Lsm.State :=
+  let d := ((List.range Spec.IndexMap.nBuckets).map s.disk).toArray
+  { s with disk := fun b => if h : b < d.size then d[b] else s.disk b }
+
+/-- `step`, then store the tables it changed (`disk` only where it is read: at a reopen). -/
+def stepT (P : Archive.Params) (cfg : Lsm.Cfg) (s : State) (op : Op) : State Ã— Out :=
+  let r := step P cfg s op
+  match op with
+  | .query _ => r
+  | .reopen => ({ r.1 with ix := tabDisk (tabMem r.1.ix) }, r.2)
+  | _ => ({ r.1 with ix := tabMem r.1.ix }, r.2)
+
+/-- `istep`, then store the tables it changed. -/
+def istepT (P : Archive.Params) (cfg : Lsm.Cfg) (s : IState) (op : IOp) : IState Ã— IOut :=
+  let r := istep P cfg s op
+  match op with
+  | .read _ => r
+  | .has _ => r
+  | .write _ _ => ({ r.1 with ix := tabMem r.1.ix }, r.2)
+  | _ => ({ r.1 with ix := tabDisk (tabMem r.1.ix) }, r.2)
+
 /-- `Installation::decode_blte` of the pinned tree, applied there to what `read_content` had
 already decoded (removed by the `fix:` commit; kept for the counter-witness). -/
 def decodeBlteSecond (cd : Blte.Codec) (raw : Bytes) : Except Archive.Err Bytes :=
